@@ -335,6 +335,10 @@ def __contains__(a, key) -> bool:
     key = tuple(_flatten(key)) if (hasattr(key,'__iter__') or hasattr(key,'__next__')) else (key,)
     if a.isdiag:
         return key in a.struct.t or (key+key) in a.struct.t
+    nsym = a.config.sym.NSYM
+    if len(key) == a.ndim_n * nsym and a.trans != tuple(range(a.ndim_n)):  # key is given in the logical order of legs
+        reverse_trans = np.argsort(a.trans).tolist()
+        key = tuple(x for ax in reverse_trans for x in key[ax * nsym: (ax + 1) * nsym])
     return key in a.struct.t
 
 ##################################################
@@ -443,7 +447,9 @@ def to_raw_tensor(a) -> numpy.ndarray | torch.tensor:
     The type of the returned tensor depends on the backend, i.e. ``numpy.ndarray`` or ``torch.tensor``.
     """
     if len(a.struct.D) == 1:
-        return a._data.reshape(a.struct.D[0])
+        if a.isdiag:
+            return a._data
+        return a.config.backend.permute_dims(a._data.reshape(a.struct.D[0]), a.trans)
     raise YastnError('Only tensor with a single block can be converted to raw tensor.')
 
 
